@@ -260,6 +260,92 @@ func (p *pkgInfo) intLiteralsComparedWith(fn, needle string, env map[string]cons
 	return res
 }
 
+// pkgComparisons gives the set of comparisons of a non-constant expression with an integer constant found anywhere
+// in the package, each in the normal form "op constant" (the constant on the right: `32 <= op` is ">= 32"; `!=` is
+// recorded as `==`, a test and its negation splitting the values the same way; `case c:` of a tagged switch is
+// "== c"), sorted, without duplicates.  The facts do not depend on the names of variables or functions, on the
+// order of the tests, on which helper a test lives in, or on whether a bound is written as a literal or as a named
+// constant; they do change when a bound or the direction of a test changes.
+func (p *pkgInfo) pkgComparisons(env map[string]constant.Value, onlyFile string) []string {
+	flip := map[token.Token]string{token.LSS: ">", token.LEQ: ">=", token.GTR: "<", token.GEQ: "<=", token.EQL: "==", token.NEQ: "=="}
+	same := map[token.Token]string{token.LSS: "<", token.LEQ: "<=", token.GTR: ">", token.GEQ: ">=", token.EQL: "==", token.NEQ: "=="}
+	seen := map[string]bool{}
+	// constants declared inside functions count like package-level ones
+	local := map[string]constant.Value{}
+	for k, v := range env {
+		local[k] = v
+	}
+	for _, f := range sortedFiles(p.files) {
+		ast.Inspect(f, func(n ast.Node) bool {
+			if gd, ok := n.(*ast.GenDecl); ok && gd.Tok == token.CONST {
+				for _, sp := range gd.Specs {
+					if vs, ok := sp.(*ast.ValueSpec); ok && len(vs.Values) == len(vs.Names) {
+						for i, nm := range vs.Names {
+							if _, have := local[nm.Name]; !have {
+								if v, ok := p.evalConst(vs.Values[i], 0, local); ok {
+									local[nm.Name] = v
+								}
+							}
+						}
+					}
+				}
+			}
+			return true
+		})
+	}
+	env = local
+	intConst := func(e ast.Expr) (string, bool) {
+		v, ok := p.evalConst(e, 0, env)
+		if !ok || v.Kind() != constant.Int {
+			return "", false
+		}
+		return v.ExactString(), true
+	}
+	for _, f := range sortedFiles(p.files) {
+		if onlyFile != "" && !strings.HasSuffix(fset.Position(f.Pos()).Filename, onlyFile) {
+			continue
+		}
+		ast.Inspect(f, func(n ast.Node) bool {
+			switch n := n.(type) {
+			case *ast.BinaryExpr:
+				if _, ok := same[n.Op]; !ok {
+					return true
+				}
+				xc, xok := intConst(n.X)
+				yc, yok := intConst(n.Y)
+				if yok && !xok {
+					seen[same[n.Op]+" "+yc] = true
+				} else if xok && !yok {
+					seen[flip[n.Op]+" "+xc] = true
+				}
+			case *ast.SwitchStmt:
+				if n.Tag == nil {
+					return true
+				}
+				if _, ok := intConst(n.Tag); ok {
+					return true
+				}
+				for _, st := range n.Body.List {
+					if cc, ok := st.(*ast.CaseClause); ok {
+						for _, e := range cc.List {
+							if c, ok := intConst(e); ok {
+								seen["== "+c] = true
+							}
+						}
+					}
+				}
+			}
+			return true
+		})
+	}
+	var res []string
+	for k := range seen {
+		res = append(res, k)
+	}
+	sort.Strings(res)
+	return res
+}
+
 // comparisonsWith gives the source text "op other-side" of every comparison in fn one side of which contains needle
 func (p *pkgInfo) comparisonsWith(fn, needle string) []string {
 	fd := p.funcDecl(fn)
@@ -469,22 +555,17 @@ func genConsts(out string, root, t1, pfbp, names *pkgInfo) {
 	lf.printf("def t1_deobfuscateR : Option Int := %s\n", optInt(v, ok))
 	v, ok = t1.localVarInit("decodeInfo.decodeCharString", "maxStack", tc)
 	lf.printf("def t1_maxStack : Option Int := %s\n", optInt(v, ok))
-	lf.printf("def t1_callDepthTests : List String := %s\n", leanStrList(t1.intLiteralsComparedWith("decodeInfo.decodeCharString", "len(cmdStack)", tc)))
-	lf.printf("def t1_appendNumberQTests : List String := %s\n", leanStrList(t1.intLiteralsComparedWith("appendNumber", "q", tc)))
-	// the test that decides whether a CharStrings entry is too short to hold the lead bytes: source text of both sides
-	lf.printf("def t1_readShortCipherTests : List String := %s\n", leanStrList(t1.comparisonsWith("Read", "len(obfuscated)")))
 	lf.printf("\n/-! literal limits inside the interpreter -/\n")
-	lf.printf("def root_execDepthTests : List String := %s\n", leanStrList(dedup(root.intLiteralsComparedWith("Interpreter.executeOne", "execStackDepth", rc))))
-	lf.printf("def root_errorLevelTests : List String := %s\n", leanStrList(root.intLiteralsComparedWith("Interpreter.executeOne", "level", rc)))
-	lf.printf("def root_stackDepthTests : List String := %s\n", leanStrList(root.intLiteralsComparedWith("Interpreter.executeOne", "len(intp.Stack)", rc)))
-	lf.printf("def root_internaldictTests : List String := %s\n", leanStrList(root.intLiteralsComparedWith("bInternaldict", "index", rc)))
-	lf.printf("def root_cmapBlockTests : List String := %s\n", leanStrList(dedup(cmapLimitTests(root, rc))))
 	lf.printf("\n/-! package type1/names -/\n")
 	lf.printf("def names_maxNameLength : Option Int := %s\n", get(nc, "maxNameLength"))
 	lf.printf("\n/-! package pfb: comparisons of the header bytes -/\n")
 	// comparisons of the first two header bytes with constants, anywhere in the package (the header may be
 	// decoded in a helper and the array may have any name), as a sorted set
-	lf.printf("def pfb_headerTests : List String := %s\n", leanStrList(dedup(append(pfbp.intLiteralsComparedWith("", "[0]", pfbp.consts()), pfbp.intLiteralsComparedWith("", "[1]", pfbp.consts())...))))
+	lf.printf("\n/-! comparisons with integer constants, per package, in normal form (see pkgComparisons) -/\n")
+	lf.printf("def cmp_root : List String := %s\n", leanStrList(root.pkgComparisons(rc, "")))
+	lf.printf("def cmp_cmap : List String := %s\n", leanStrList(root.pkgComparisons(rc, "cmap.go")))
+	lf.printf("def cmp_type1 : List String := %s\n", leanStrList(t1.pkgComparisons(tc, "")))
+	lf.printf("def cmp_pfb : List String := %s\n", leanStrList(pfbp.pkgComparisons(pfbp.consts(), "")))
 	lf.write(out)
 }
 
@@ -683,9 +764,6 @@ func genT1Ops(out string, t1 *pkgInfo) {
 		lf.printf("  (%s, %s)%s\n", leanStr(n), tc[n].ExactString(), sep)
 	}
 	lf.printf("]\n\n")
-	lf.printf("/-- literal bounds tested against `x` in appendInt, in source order -/\ndef appendIntTests : List String := %s\n", leanStrList(t1.intLiteralsComparedWith("appendInt", "x", tc)))
-	lf.printf("/-- literal bounds tested against `op` in decodeCharString, in source order -/\ndef decodeOpTests : List String := %s\n", leanStrList(t1.intLiteralsComparedWith("decodeInfo.decodeCharString", "op", tc)))
-	lf.printf("/-- tests of the number of bytes left before a multi-byte operand or operator is read, in source order -/\ndef decodeLenTests : List String := %s\n", leanStrList(t1.intLiteralsComparedWith("decodeInfo.decodeCharString", "len(code)", tc)))
 	lf.write(out)
 }
 
